@@ -318,6 +318,9 @@ func (k *Keyed[K, V]) resetRoutineLocked(key K, conds ...func(K, V) bool) (exist
 	k.routines[key] = v
 	if k.ctx != nil {
 		v.start(k.ctx, prevExitedCh, false)
+	} else {
+		// wait for the previous routine to exit when starting later
+		v.exitedCh = prevExitedCh
 	}
 
 	return true, true
